@@ -63,9 +63,14 @@ func maxInt(a, b int) int {
 	return b
 }
 
-func drawCtx(t *Tape, rng *rand.Rand) string {
+func drawCtx(t *Tape, rng *rand.Rand, jsonWS bool) string {
 	if !t.Chance(1, 2) {
 		return ""
+	}
+	if jsonWS && rng.Intn(3) == 0 {
+		// a JSON document with insignificant white space, as most SDKs serialise it: it must arrive as posted, not
+		// re-serialised (C01/w8-2)
+		return fmt.Sprintf(`{"custom": {"k%d": "v %d",  "n" : [1, 2 ,3]}, "client" : { "installation_id": "i-%d" } }`, rng.Intn(10), rng.Intn(100), rng.Intn(1000))
 	}
 	n := 1 + rng.Intn(40)
 	b := make([]byte, n)
@@ -162,7 +167,7 @@ func scenRoundTrip(r *Run, job *Job, prop string) {
 			// through the emulator's front end the invocation is buffered all the same and the limit applies unchanged
 			p.streamHdr = t.Chance(1, 3)
 		}
-		p.cliCtx = drawCtx(t, rng)
+		p.cliCtx = drawCtx(t, rng, prop == "C01" && job.Prop == "C01")
 		if t.Chance(1, 3) {
 			p.trace = DrawTrace(t, i+1)
 		}
